@@ -386,6 +386,23 @@ func (e *Exec) emitCover(st *State, name string, where string) {
 	}
 	o := &Obl{Unit: e.unit, Name: e.unit + "/" + name, Kind: "cover", PC: append([]T(nil), st.PC...), Goal: False, Expect: "sat", Path: st.PathID, Where: where, Exec: e}
 	e.obls = append(e.obls, o)
+	// Cover queries drop quantified assumptions, so a path whose quantified
+	// assumptions (invariants, callee postconditions) contradict each other
+	// would still count as reachable. A dead-path probe asks the opposite
+	// question with everything kept: is `false` provable here?
+	if strings.HasPrefix(name, "cover:return") {
+		quant := false
+		for _, t := range st.PC {
+			if strings.Contains(t.S, "(forall ") {
+				quant = true
+				break
+			}
+		}
+		if quant {
+			d := &Obl{Unit: e.unit, Name: e.unit + "/deadprobe:" + strings.TrimPrefix(name, "cover:"), Kind: "deadprobe", PC: append([]T(nil), st.PC...), Goal: False, Expect: "unsat", Path: st.PathID, Where: where, Exec: e}
+			e.obls = append(e.obls, d)
+		}
+	}
 }
 
 // safety obligation
